@@ -344,6 +344,16 @@ def execute(plan):
                             viol("response_shape", step, "reported response has shape %s, expected %s (one sample per %s)" % (
                                 H.shape, want_shape, "input sample" if o == "time" else "block"), op=o)
                             break
+                        # the accessors of the reported response must describe the same taps
+                        sp, spi = np.asarray(ir.tap_values_sparse), np.asarray(ir.tap_indexes_sparse)
+                        dense2 = np.zeros(H.shape, dtype=complex)
+                        if sp.shape[0] == spi.shape[0] and sp.shape[1:] == H.shape[1:] and (spi.max() if spi.size else 0) < H.shape[0]:
+                            dense2[spi] = sp
+                        nf = 4 if o == "time" else fft
+                        if rel_err(dense2, H) > 1e-12 or rel_err(ir.get_freq_response(max(nf, D)), np.fft.fft(H, max(nf, D), axis=0)) > 1e-9 \
+                                or rel_err(np.asarray(ir.tap_values), H) > 0:
+                            viol("response_accessors", step, "the reported response is inconsistent: dense taps, sparse taps and frequency response describe different channels", op=o)
+                            break
                         part = conv_time(H, xs[ti], mimo, switched) if o == "time" else apply_freq(H, xs[ti], fft, selidx, mimo, switched)
                         acc = part if acc is None else acc + part
                     if res["status"] != "ok":
